@@ -492,7 +492,7 @@ def check_run(ck, case, cfg, scratch, use_model=True):
             any((cfg["broken"][0] == 0 and p == cfg["broken"][1]) or (cfg["broken"][0] == 1 and cfg["broken"][1] in ss)
                 for p, ss in real_matches)
         # ---- totals
-        got, crashed_marker, names, contents = [], 0, [], {}
+        got, crashed_marker, names, contents, contents_name, pending = [], 0, [], {}, {}, None
         try:
             if r["error"] is None and cfg["output"] == "memory":
                 for item in r["results"]:
@@ -526,6 +526,7 @@ def check_run(ck, case, cfg, scratch, use_model=True):
                         ck.violation("corrupt-result", f"output file {os.path.basename(f.path)} is inconsistent: {e}", full)
                         return True
                     contents[((f.times[0] - EPOCH) // US, (f.times[1] - EPOCH) // US)] = sorted(ds_pairs(ds))
+                    contents_name[os.path.basename(f.path)] = sorted(ds_pairs(ds))
                     # named by the time span of the collocations it holds
                     tp = ds["s0/time"].values
                     lo = EPOCH + int(tp.min().astype("M8[us]").astype("int64")) * US
@@ -575,9 +576,14 @@ def check_run(ck, case, cfg, scratch, use_model=True):
                         all(contents[k] in v for k, v in groups.items()):
                     sig = "output-name-collision"
                     full = dict(full, overwritten_names=dup)
-            ck.violation(sig, f"processes={cfg['procs']} bundle={cfg['bundle']} output={cfg['output']} skip={cfg['skip']} broken={cfg['broken']}: "
-                              f"{len(got)} collocations reported, {len(want)} exist; missing {missing[:6]} extra {extra[:6]}"
-                              + (f"; output files written more than once: {dup}" if sig != "other" else ""), full)
+            what = (f"processes={cfg['procs']} bundle={cfg['bundle']} output={cfg['output']} skip={cfg['skip']} broken={cfg['broken']}: "
+                    f"{len(got)} collocations reported, {len(want)} exist; missing {missing[:6]} extra {extra[:6]}")
+            if sig == "other" and cfg["output"] == "fileset" and dup and not extra and use_model:
+                # bundling modes: whether the loss is exactly the overwritten bundles is decided below,
+                # once the model has said which bundles the workers put (k-th result of worker w)
+                pending = {"what": what, "dup": dup}
+            else:
+                ck.violation(sig, what + (f"; output files written more than once: {dup}" if sig != "other" else ""), full)
         if cfg["output"] == "fileset" and r["error"] is None and len(set(names)) < len(names) and got == want:
             ck.count("name-collision-harmless")
         # ---- correspondence with the model
@@ -652,6 +658,31 @@ def check_run(ck, case, cfg, scratch, use_model=True):
         if cfg["output"] == "fileset":
             import re
             model_cf = re.sub(r"R[0-9.]+", "R", model_cf)
+        if pending is not None:
+            # known finding output-name-collision in a bundling mode (e.g. skip_file_errors: the lagging
+            # matches[processed] splits the results of one primary into two bundles with the same primary
+            # time span): same rule as for bundle=None -- >= 2 yielded results with one file name, every file
+            # holds exactly one of the bundles named like it, singly named bundles intact
+            sig, by_name = "other", {}
+            if real_cf == model_cf:
+                wl = outl[1].split(" | ")
+                fn_per = [[] for _ in wl]
+                for name, progress, result in r["get_log"]:
+                    if isinstance(result, str) and CM.PROCESS_NAMES.index(name) < len(wl):
+                        fn_per[CM.PROCESS_NAMES.index(name)].append(os.path.basename(result))
+                ok = True
+                for w, toks in enumerate(wl):
+                    rt = [t for t in toks.split() if t.startswith("R")]
+                    if len(rt) != len(fn_per[w]):
+                        ok = False
+                        break
+                    for t, fn in zip(rt, fn_per[w]):
+                        by_name.setdefault(fn, []).append(sorted(x for k in t[1:].split(".") for x in rlist[int(k)]))
+                if ok and set(by_name) == set(contents_name) and any(len(v) > 1 for v in by_name.values()) and \
+                        all(contents_name[n] in v for n, v in by_name.items()):
+                    sig = "output-name-collision"
+                    full = dict(full, overwritten_names=pending["dup"])
+            ck.violation(sig, pending["what"] + (f"; output files written more than once: {pending['dup']}" if sig != "other" else ""), full)
         if real_cf != model_cf:
             ck.disagree(f"worker emissions (processes={cfg['procs']} bundle={cfg['bundle']} skip={cfg['skip']} broken={cfg['broken']}): "
                         f"model '{model_cf[:160]}' vs code '{real_cf[:160]}'", full)
@@ -875,13 +906,14 @@ def replay(path):
     ck = vlib.Check(PROP, pkg=PKG, props="Proofs.Props.C05", driver="drv_c05")
     scratch = tempfile.mkdtemp(prefix="verif_c05_")
     try:
+        use_model = os.path.exists(os.path.join(ck.pkgdir, ".lake/build/bin/drv_c05"))
         for _ in range(3):          # interleavings are not deterministic: a few attempts
-            run_corpus_case(ck, c, scratch, use_model=False)
+            run_corpus_case(ck, c, scratch, use_model=use_model)   # the model only refines the signature
             if ck.violations:
                 break
     finally:
         kill_children()
         shutil.rmtree(scratch, ignore_errors=True)
     for v in ck.violations[:5]:
-        print("REPRODUCED:", v["what"])
+        print(f"REPRODUCED [{v['signature']}]:", v["what"])
     raise SystemExit(1 if ck.violations else 0)
